@@ -69,7 +69,9 @@ Definition digits_val (ds : text) : Z := fold_left (fun acc c => 10 * acc + (b2z
    int, or Decimal with sign, coefficient and exponent (value = +-coef * 10^exp) *)
 Inductive pynum := PInt (z : Z) | PDec (neg : bool) (coef exp : Z).
 
-(* json.scanner NUMBER_RE = (-?(?:0|[1-9]\d*))(\.\d+)?([eE][-+]?\d+)? ; the token must be
+(* json.scanner NUMBER_RE: optional '-', then '0' or a non-zero digit followed by digits,
+   then optionally '.' and one or more digits, then optionally 'e' or 'E', an optional
+   sign and one or more digits; the token must be
    matched completely (what follows a number inside a document is never one of the
    characters 0-9 + - . e E, so a text over these characters that is not matched
    completely makes the whole document invalid) *)
